@@ -12,11 +12,16 @@ CONST_GENERIC_SRC = """
 #[derive(TS)] pub struct CgMatrix<T, const N: usize> { pub rows: [T; N], pub label: String }
 #[derive(TS)] pub struct CgBuf<const N: usize, const M: usize = 2> { pub a: [u8; N], pub b: [Option<i16>; M] }
 #[derive(TS)] pub enum CgChoice<const N: usize> { Flags([bool; N]), Named { names: [String; N] }, Nothing }
+pub mod cg_a { use ts_rs::TS; #[derive(TS)] #[ts(export_to = "cg_a/")] pub struct CgSame { pub a: i32 } }
+pub mod cg_b { use ts_rs::TS; #[derive(TS)] #[ts(export_to = "cg_b/")] pub struct CgSame { pub b: String } }
+#[derive(TS)] pub struct CgBothA { pub x: cg_a::CgSame, pub y: cg_b::CgSame }
+#[derive(TS)] pub struct CgBothB { pub y: cg_b::CgSame, pub x: cg_a::CgSame, pub z: Vec<cg_a::CgSame> }
+#[derive(TS)] pub struct CgBothC { pub p: Option<cg_b::CgSame>, pub q: Box<cg_a::CgSame>, pub r: (cg_a::CgSame, cg_b::CgSame) }
 #[derive(TS)] pub struct CgHolder { pub two: CgMatrix<i32, 2>, pub three: CgMatrix<i32, 3>, pub buf: CgBuf<1>, #[ts(inline)] pub choice: CgChoice<2> }
 """
 CONST_GENERIC_ENTRIES = [("Cg:matrix2", "CgMatrix<i32, 2>"), ("Cg:matrix3", "CgMatrix<i32, 3>"), ("Cg:matrix0", "CgMatrix<String, 0>"),
                          ("Cg:buf1", "CgBuf<1>"), ("Cg:buf34", "CgBuf<3, 4>"), ("Cg:choice1", "CgChoice<1>"), ("Cg:choice2", "CgChoice<2>"),
-                         ("Cg:holder", "CgHolder"),
+                         ("Cg:holder", "CgHolder"), ("Cg:bothA", "CgBothA"), ("Cg:bothB", "CgBothB"), ("Cg:bothC", "CgBothC"),
                          # renders that fail (nothing to export): what such a call leaves behind must not reach the next one
                          ("nx:vec", "Vec<CgHolder>"), ("nx:opt", "Option<CgBuf<1>>"), ("nx:prim", "i32"), ("nx:tuple", "(CgHolder, String)")]
 
